@@ -384,6 +384,12 @@ func c12Live(t *testing.T, r *vfh.Rand, out *vfh.Out) {
 	if r.Bool() || len(ifi.Plugins) == 0 {
 		ifi.Plugins = append(ifi.Plugins, dep)
 	}
+	if r.Bool() {
+		ifi.Plugins = append(ifi.Plugins, plugin.NewMTU(vfh.Pick(r, []int{1280, 1500})))
+	}
+	if r.Bool() {
+		ifi.Plugins = append(ifi.Plugins, &plugin.CaptivePortal{Portal: &ndp.CaptivePortal{URI: vfh.Pick(r, c12Portals)}})
+	}
 	mem := metricslite.NewMemory()
 	state := system.TestState{Forwarding: true}
 	mm := NewMetrics(mem, "v", time.Time{}, state, []config.Interface{ifi})
@@ -407,43 +413,58 @@ func c12Live(t *testing.T, r *vfh.Rand, out *vfh.Out) {
 	if err != nil {
 		t.Fatalf("RouterAdvertisement: %v", err)
 	}
-	var got *ndp.RouterAdvertisement
-	switch r.Intn(3) {
-	case 0: // a twin of the present moment
-		got, _, _ = ifi.RouterAdvertisement(true)
-	default:
-		got = c12Mutate(r, own)
-	}
-	if rt, ok := c12RoundTrip(got); ok && r.Bool() {
-		got = rt
-	}
-	ip, err := a.handle(got, netip.MustParseAddr("fe80::2"))
-	if err != nil || ip.IsValid() {
-		t.Fatalf("handle(RA) = %v, %v", ip, err)
-	}
-	var cps []c12Problem
-	series, _ := mm.Series()
-	for name, s := range series {
-		if name != advInconsistencies {
-			continue
-		}
-		for lbl, v := range s.Samples {
-			kv := map[string]string{}
-			for _, part := range strings.Split(lbl, ",") {
-				if i := strings.Index(part, "="); i >= 0 {
-					kv[part[:i]] = part[i+1:]
+	// 1..3 RAs from other routers arrive one after the other at this advertiser (each judged on its
+	// own: nothing of an earlier received RA may leak into the verdict on a later one — options
+	// present in one and absent from the next, e.g. MTU or captive portal)
+	counts := func() map[c12Problem]int {
+		m := map[c12Problem]int{}
+		series, _ := mm.Series()
+		for name, s := range series {
+			if name != advInconsistencies {
+				continue
+			}
+			for lbl, v := range s.Samples {
+				kv := map[string]string{}
+				for _, part := range strings.Split(lbl, ",") {
+					if i := strings.Index(part, "="); i >= 0 {
+						kv[part[:i]] = part[i+1:]
+					}
 				}
-			}
-			f, ok := c12Fields[kv["field"]]
-			if !ok {
-				f = 99
-			}
-			for k := 0; k < int(v); k++ {
-				cps = append(cps, c12Problem{f, kv["details"]})
+				f, ok := c12Fields[kv["field"]]
+				if !ok {
+					f = 99
+				}
+				m[c12Problem{f, kv["details"]}] += int(v)
 			}
 		}
+		return m
 	}
-	c12Emit(out, own, got, hooks >= 1, cps, c12CIDRs(own, got))
+	for nth := 1 + r.Intn(3); nth > 0; nth-- {
+		var got *ndp.RouterAdvertisement
+		switch r.Intn(4) {
+		case 0: // a twin of the present moment
+			got, _, _ = ifi.RouterAdvertisement(true)
+		case 1: // an unrelated router (other options present / absent)
+			got = c12GenRA(r)
+		default:
+			got = c12Mutate(r, own)
+		}
+		if rt, ok := c12RoundTrip(got); ok && r.Bool() {
+			got = rt
+		}
+		before, hooksBefore := counts(), hooks
+		ip, err := a.handle(got, netip.MustParseAddr("fe80::2"))
+		if err != nil || ip.IsValid() {
+			t.Fatalf("handle(RA) = %v, %v", ip, err)
+		}
+		var cps []c12Problem
+		for k, v := range counts() {
+			for d := v - before[k]; d > 0; d-- {
+				cps = append(cps, k)
+			}
+		}
+		c12Emit(out, own, got, hooks > hooksBefore, cps, c12CIDRs(own, got))
+	}
 }
 
 func c12RoundTrip(ra *ndp.RouterAdvertisement) (*ndp.RouterAdvertisement, bool) {
